@@ -600,7 +600,13 @@ func (rm *relayManager) handleCreateRelayRequest(v cert.Version, h *HostInfo, f 
 		}
 
 		// Also track the half-created Relay state just received
-		_, ok = h.relayState.QueryRelayForByIp(target)
+		existing, ok := h.relayState.QueryRelayForByIp(target)
+		if ok && existing.RemoteIndex == 0 {
+			// The slot on the requester's tunnel was created when the target asked for a relay to the requester, and the
+			// requester never answered: it has never learned the requester's index. Learn it from this request, otherwise
+			// the slot is later marked Established (and answered, and forwarded on) with index 0.
+			h.relayState.SetRelayForByIpRemoteIndex(target, m.InitiatorRelayIndex)
+		}
 		if !ok {
 			_, err := AddRelay(rm.l, h, f.hostMap, target, &m.InitiatorRelayIndex, ForwardingType, PeerRequested)
 			if err != nil {
